@@ -40,6 +40,9 @@ import (
 //	6 ready pool, Fetch answer held: cancel → answer released → connection idle → idle timer → CloseIdleConnections
 //	7 ready pool, Fetch answered normally → CloseIdleConnections while idle
 //	8 ready pool, two round trips, one held; CloseIdleConnections while the other connection is idle; release
+//	9 the broker connection's dial is slow and ignores its context: the caller's context is cancelled while the
+//	  connect is under way, the connect then succeeds — the connection nobody waits for any more must be released to
+//	  the pool or closed (and be gone after the idle timeout / CloseIdleConnections)
 func transportScenario(kind int, r *rand.Rand) (lines [][2]string) {
 	base := libGoroutines()
 	rec := &recorder{}
@@ -54,6 +57,8 @@ func transportScenario(kind int, r *rand.Rand) (lines [][2]string) {
 		})
 	}
 	held := make(chan struct{}, 16)
+	slowDial := make(chan struct{}, 16)
+	dialDelay := time.Duration(10+r.Intn(20)) * time.Millisecond
 	brk := &Broker{FetchMax: 2, Topic: "t", OnFetch: func(q FetchReq) FetchResp {
 		rec.add("fq")
 		switch kind {
@@ -84,6 +89,10 @@ func transportScenario(kind int, r *rand.Rand) (lines [][2]string) {
 				return nil, ctx.Err()
 			}
 			id := int(atomic.AddInt32(&nconn, 1))
+			if kind == 9 && id >= 2 {
+				slowDial <- struct{}{}
+				time.Sleep(dialDelay) // deaf to ctx: the connect completes after the cancellation
+			}
 			atomic.AddInt32(&open, 1)
 			rec.add("bo/%d", id)
 			var c net.Conn
@@ -184,6 +193,19 @@ func transportScenario(kind int, r *rand.Rand) (lines [][2]string) {
 		}
 		doRelease()
 		time.Sleep(time.Duration(r.Intn(80)) * time.Millisecond) // sometimes shorter, sometimes longer than IdleTimeout
+	case 9:
+		for i := 0; i < ncalls; i++ {
+			select {
+			case <-slowDial:
+			case <-time.After(watchdog()):
+			}
+		}
+		cancelAll()
+		for i := range done {
+			<-waitOr(done[i])
+		}
+		doRelease() // should a request be sent after all, it is answered
+		time.Sleep(time.Duration(40+r.Intn(40)) * time.Millisecond)
 	case 8:
 		waitHeld(1)
 		<-waitOr(done[1])
@@ -294,7 +316,7 @@ func transportPart(seed int64) {
 	}
 	n := 0
 	for rep := 0; rep < reps; rep++ {
-		for kind := 0; kind < 9; kind++ {
+		for kind := 0; kind < 10; kind++ {
 			n++
 			if tooManyStuck() {
 				return
